@@ -260,11 +260,12 @@ fn pk_read(w: &mut World, op: &Value) -> R<Value> {
     }
     let entry = format!("sm2.pk.from_{enc}");
     w.bump(&format!("call.{entry}"));
+    let doc_p = crate::place::Placed::new(&doc, w.next_place());
     let out = run_lib_norng(|| {
         let pk = match enc.as_str() {
-            "sec1c" | "sec1u" => Sm2PublicKey::new(&doc).ok()?,
+            "sec1c" | "sec1u" => Sm2PublicKey::new(doc_p.as_slice()).ok()?,
             "hexc" | "hexu" => Sm2PublicKey::from_hex_string(as_str.as_ref().unwrap()).ok()?,
-            "spki-der" => Sm2PublicKey::from_public_key_der(&doc).ok()?,
+            "spki-der" => Sm2PublicKey::from_public_key_der(doc_p.as_slice()).ok()?,
             _ => {
                 if w_flag(op, "fromstr") {
                     as_str.as_ref().unwrap().parse::<Sm2PublicKey>().ok()?
@@ -420,15 +421,16 @@ fn sk_read(w: &mut World, op: &Value) -> R<Value> {
     }
     let entry = format!("sm2.sk.from_{enc}");
     w.bump(&format!("call.{entry}"));
+    let doc_p = crate::place::Placed::new(&doc, w.next_place());
     let out = run_lib_norng(|| {
         let sk = match enc.as_str() {
-            "bytes" => Sm2PrivateKey::new(&doc).ok()?,
+            "bytes" => Sm2PrivateKey::new(doc_p.as_slice()).ok()?,
             "hex" => Sm2PrivateKey::from_hex_string(as_str.as_ref().unwrap()).ok()?,
-            "pkcs8-der" => Sm2PrivateKey::from_pkcs8_der(&doc).ok()?,
+            "pkcs8-der" => Sm2PrivateKey::from_pkcs8_der(doc_p.as_slice()).ok()?,
             "pkcs8-pem" => Sm2PrivateKey::from_pkcs8_pem(as_str.as_ref().unwrap()).ok()?,
             _ => {
                 use pkcs8::der::Decode;
-                let ec = sec1::EcPrivateKey::from_der(&doc).ok()?;
+                let ec = sec1::EcPrivateKey::from_der(doc_p.as_slice()).ok()?;
                 Sm2PrivateKey::try_from(ec).ok()?
             }
         };
